@@ -37,12 +37,15 @@ var c11LexFixed = []string{
 	"`d`", "``", "`a b`.c", "`a\\`b`", "`a'b`", "`unterminated", "'a`b'`c'd`",
 	"%a", "%'a b'", "% a", "%`q`", "%%", "{}", "{ }", "{/**/}", "( 1 )", "a[0]", "a [ 0 ]", "a.b(c,d)", "a . b ( c , d )", "a|b", "a&b", "-1", "- 1", "+-+1", "1 'mg'", "1'mg'", "1 year", "1year", "1.5years",
 	"a # b", "a ? b", "a ; b", "a : b", "a \\ b", "a ^ b", "a \" b", "é", "'é'", "a b", "a\vb", "a\fb", "a\x00b", "'\x00'", "a\tb\r\nc",
-	"@2020", "@2020-01-01T10:00:00Z + 1", "@T10:30", "@2020-1", "a @ b",
+	"@2020", "@2020-01-01T10:00:00Z + 1", "@T10:30", "@2020-1", "a @ b", "@", "@T", "@T1", "@T10", "@T10:", "@T10:3", "@T10:30:", "@T10:30:15.", "@T10:30:15.2", "@T10:30:15.250Z", "@T10:30+05:30",
+	"@202", "@20201", "@2020-", "@2020-01-", "@2020-01-0", "@2020-01-02", "@2020-01-02-03", "@2020T", "@2020-01T", "@2020-01-02T", "@2020-01-02T1", "@2020-01-02T10", "@2020-01-02T10Z", "@2020-01-02T10:30+05", "@2020-01-02T10:30+05:3",
+	"@2020-01-02T10:30+05:30", "@2020-01-02T10:30-05:30", "@2020-01-02T10:30:15.250+05:30x", "@2020-01-02T10:30:15.250 +05:30", "@2020-01-02T10:30:15.Z", "@2020-01-02TZ", "@2020T10", "@2020-01-02T10:30z", "@2020-01-02t10",
+	"@2020-01-02T10:30:15.1234567890123", "@2020.toString()", "@2020-01-02.toString()", "@2020-01-02T10:30:15.5.toString()", "@T10.5", "@T10:30.toString()", "@2020-01-02T10:30:15+05:30.x", "@2020-01-02--1", "@2020-01-02T10:30:15-1",
 }
 
 var c11LexLexemes = []string{
 	"a", "b1", "_x", "div", "mod", "and", "or", "xor", "implies", "is", "as", "in", "contains", "true", "false", "year", "days",
-	"0", "1", "12", "007", "1.5", "10.25", "$this", "$index", "$total", "'s'", "''", "'a b'", "'it\\'s'", "'\\\\'", "`d e`", "``",
+	"0", "1", "12", "007", "1.5", "10.25", "@2020", "@2020-03", "@2020-03-04", "@2020-03-04T10", "@2020-03-04T10:30:15.250+05:30", "@2020-03-04T10:30Z", "@T10:30", "@T10:30:15.5", "@2020T", "$this", "$index", "$total", "'s'", "''", "'a b'", "'it\\'s'", "'\\\\'", "`d e`", "``",
 	".", ".", ".", "[", "]", "+", "-", "*", "/", "&", "|", "<=", "<", ">", ">=", "=", "~", "!=", "!~", "(", ")", "{", "}", "%", ",",
 }
 
